@@ -78,8 +78,9 @@ Definition iulp (b : Z) : Z := 2 ^ (Z.max (b / two52) 1 - 1).
 Definition f_abs (b : Z) : Z := b mod sign_bit.
 Definition f_neg (b : Z) : bool := sign_bit <=? b.
 Definition f_opp (b : Z) : Z := if sign_bit <=? b then b - sign_bit else b + sign_bit.
+Definition two2148 : Z := 2 ^ 2148.                          (* (2^1074)^2 *)
 Definition f_mul (a b : Z) : Z :=
-  fst (round_ne (xorb (f_neg a) (f_neg b)) (ival (f_abs a) * ival (f_abs b)) (2 ^ 2148)).
+  fst (round_ne (xorb (f_neg a) (f_neg b)) (ival (f_abs a) * ival (f_abs b)) two2148).
 Definition f_div (a b : Z) : Z :=
   fst (round_ne (xorb (f_neg a) (f_neg b)) (ival (f_abs a)) (ival (f_abs b))).
 (** a < b as floats, finite operands (signed zeros compare equal) *)
@@ -113,3 +114,539 @@ Example round_half_min_up : round_ne true (2 ^ 1075 + 1) (2 ^ 2150) = (sign_bit 
 Proof. vm_compute. reflexivity. Qed.
 Example round_big : fst (round_ne false (10 ^ 400) (10 ^ 400 * 3)) = 4599676419421066581.
 Proof. vm_compute. reflexivity. Qed.
+
+(** ** Characterisation lemmas *)
+
+Lemma P2_pos k : 0 < P2 k.
+Proof. unfold P2. apply Z.pow_pos_nonneg; lia. Qed.
+
+Lemma P2_nonneg k : 0 <= k -> P2 k = 2 ^ k.
+Proof. intros. unfold P2. rewrite Z.max_l by lia. reflexivity. Qed.
+
+Lemma P2_nonpos k : k <= 0 -> P2 k = 1.
+Proof. intros. unfold P2. rewrite Z.max_r by lia. reflexivity. Qed.
+
+(** 2^(a+b) = 2^a * 2^b in fraction form *)
+Lemma P2_add a b : P2 (a + b) * P2 (- a) * P2 (- b) = P2 (- (a + b)) * P2 a * P2 b.
+Proof.
+  destruct (Z_le_gt_dec 0 a), (Z_le_gt_dec 0 b), (Z_le_gt_dec 0 (a + b));
+  repeat first [ rewrite (P2_nonneg (a+b)) by lia | rewrite (P2_nonpos (a+b)) by lia
+               | rewrite (P2_nonneg (-(a+b))) by lia | rewrite (P2_nonpos (-(a+b))) by lia
+               | rewrite (P2_nonneg a) by lia | rewrite (P2_nonpos a) by lia
+               | rewrite (P2_nonneg (-a)) by lia | rewrite (P2_nonpos (-a)) by lia
+               | rewrite (P2_nonneg b) by lia | rewrite (P2_nonpos b) by lia
+               | rewrite (P2_nonneg (-b)) by lia | rewrite (P2_nonpos (-b)) by lia ];
+  rewrite ?Z.mul_1_l, ?Z.mul_1_r; rewrite <- ?Z.pow_add_r by lia; try reflexivity; try (f_equal; lia); try lia.
+Qed.
+
+Lemma P2_succ k : P2 (k + 1) * P2 (- k) = 2 * P2 k * P2 (- (k + 1)).
+Proof.
+  pose proof (P2_add k 1) as H. change (P2 (- (1))) with 1 in H. change (P2 1) with 2 in H. lia.
+Qed.
+
+(** monotonicity of k |-> 2^k in fraction form *)
+Lemma P2_mono a b : a <= b -> P2 a * P2 (- b) <= P2 b * P2 (- a).
+Proof.
+  intros Hab. pose proof (P2_add a (b - a)) as H.
+  replace (a + (b - a)) with b in H by lia.
+  rewrite (P2_nonpos (-(b-a))) in H by lia.
+  pose proof (P2_pos (b - a)). pose proof (P2_pos a). pose proof (P2_pos (-b)).
+  pose proof (P2_pos b). pose proof (P2_pos (-a)).
+  assert (1 <= P2 (b - a)) by lia. nia.
+Qed.
+
+Lemma P2_mono_strict a b : a < b -> 2 * P2 a * P2 (- b) <= P2 b * P2 (- a).
+Proof.
+  intros Hab. pose proof (P2_mono (a + 1) b ltac:(lia)) as H.
+  pose proof (P2_succ a) as Hs.
+  pose proof (P2_pos a). pose proof (P2_pos (-b)). pose proof (P2_pos b). pose proof (P2_pos (-a)).
+  pose proof (P2_pos (a+1)). pose proof (P2_pos (-(a+1))).
+  (* P2(a+1) P2(-b) <= P2 b P2(-(a+1));  P2(a+1) P2(-a) = 2 P2 a P2(-(a+1)) *)
+  assert (X : (P2 (a+1) * P2 (-a)) * P2 (-b) <= P2 b * P2 (-(a+1)) * P2 (-a)) by nia.
+  rewrite Hs in X. nia.
+Qed.
+
+(** [e] is the binary order of magnitude of num/den: 2^e <= num/den < 2^(e+1) *)
+Definition is_ilog2 (num den e : Z) : Prop :=
+  den * P2 e <= num * P2 (- e) < 2 * den * P2 e.
+
+Lemma ilog2_spec num den : 0 < num -> 0 < den -> is_ilog2 num den (ilog2 num den).
+Proof.
+  intros Hn Hd. unfold is_ilog2, ilog2, scale2. cbn [fst snd].
+  pose proof (Z.log2_spec num Hn) as [Hn1 Hn2]. pose proof (Z.log2_spec den Hd) as [Hd1 Hd2].
+  pose proof (Z.log2_nonneg num). pose proof (Z.log2_nonneg den).
+  set (ln := Z.log2 num) in *. set (ld := Z.log2 den) in *.
+  replace (Z.succ ln) with (ln + 1) in * by lia. replace (Z.succ ld) with (ld + 1) in * by lia.
+  rewrite Z.pow_add_r in Hn2, Hd2 by lia. change (2^1) with 2 in *.
+  assert (HA : 0 < 2 ^ ln) by (apply Z.pow_pos_nonneg; lia).
+  assert (HB : 0 < 2 ^ ld) by (apply Z.pow_pos_nonneg; lia).
+  (* 2^ln * P2(-e0) = 2^ld * P2 e0 *)
+  assert (HE : 2 ^ ln * P2 (- (ln - ld)) = 2 ^ ld * P2 (ln - ld)).
+  { destruct (Z_le_gt_dec ld ln).
+    - rewrite P2_nonpos, P2_nonneg by lia. replace ln with (ld + (ln - ld)) at 1 by lia.
+      rewrite Z.pow_add_r by lia. lia.
+    - rewrite P2_nonneg, P2_nonpos by lia. replace ld with (ln + (-(ln - ld))) at 2 by lia.
+      rewrite Z.pow_add_r by lia. lia. }
+  rewrite Z.opp_involutive.
+  pose proof (P2_pos (ln - ld)) as Hp. pose proof (P2_pos (-(ln - ld))) as Hq.
+  set (e0 := ln - ld) in *.
+  destruct (Z.leb_spec (den * P2 e0) (num * P2 (- e0))) as [Hle|Hgt].
+  - split; [exact Hle|]. nia.
+  - pose proof (P2_succ (e0 - 1)) as Hs. replace (e0 - 1 + 1) with e0 in Hs by lia.
+    pose proof (P2_pos (e0 - 1)). pose proof (P2_pos (-(e0 - 1))).
+    set (u := P2 (e0 - 1)) in *. set (v := P2 (- (e0 - 1))) in *.
+    set (p := P2 e0) in *. set (q := P2 (- e0)) in *.
+    (* p * v = 2 * u * q *)
+    split.
+    + assert (K1 : den * p <= 2 * num * q) by nia.
+      assert (K2 : den * (p * v) <= 2 * num * q * v) by nia.
+      rewrite Hs in K2. nia.
+    + assert (K3 : num * q * v < den * (p * v)) by nia.
+      rewrite Hs in K3. nia.
+Qed.
+
+Lemma ilog2_unique num den e1 e2 :
+  0 < num -> 0 < den -> is_ilog2 num den e1 -> is_ilog2 num den e2 -> e1 = e2.
+Proof.
+  assert (G : forall e1 e2, 0 < num -> 0 < den -> is_ilog2 num den e1 -> is_ilog2 num den e2 ->
+              e1 < e2 -> False).
+  { clear. intros e1 e2 Hn Hd [_ H1] [H2 _] Hlt.
+    pose proof (P2_mono (e1 + 1) e2 ltac:(lia)) as Hm. pose proof (P2_succ e1) as Hs.
+    pose proof (P2_pos e1). pose proof (P2_pos (-e1)). pose proof (P2_pos e2). pose proof (P2_pos (-e2)).
+    pose proof (P2_pos (e1+1)). pose proof (P2_pos (-(e1+1))).
+    set (a := P2 e1) in *. set (a' := P2 (-e1)) in *. set (b := P2 e2) in *. set (b' := P2 (-e2)) in *.
+    set (c := P2 (e1+1)) in *. set (c' := P2 (-(e1+1))) in *.
+    (* num a' < 2 den a ; den b <= num b' ; c b' <= b c' ; c a' = 2 a c' *)
+    (* num a' c' < 2 a c' den = c a' den  => num c' < c den => num c' b' < c b' den <= b c' den => num b' < b den *)
+    assert (num * c' < c * den) by nia.
+    assert (num * c' * b' < b * c' * den) by nia.
+    nia. }
+  intros Hn Hd H1 H2. destruct (Z.lt_trichotomy e1 e2) as [L|[E|L]]; [exfalso; eauto | exact E | exfalso; eauto].
+Qed.
+
+(** ** rne_div: nearest-even quotient *)
+
+(** [m] is a nearest integer to n/d, even on a tie *)
+Definition is_rne (n d m : Z) : Prop :=
+  2 * Z.abs (m * d - n) < d \/ (2 * Z.abs (m * d - n) = d /\ Z.even m = true).
+
+Lemma rne_div_spec n d : 0 < d -> is_rne n d (rne_div n d).
+Proof.
+  intros Hd. unfold is_rne, rne_div.
+  pose proof (Z.div_mod n d ltac:(lia)) as E. pose proof (Z.mod_pos_bound n d Hd) as B.
+  set (q := n / d) in *. set (r := n mod d) in *.
+  destruct (Z.ltb_spec (2 * r) d); [left; lia|].
+  destruct (Z.ltb_spec d (2 * r)); [left; lia|].
+  destruct (Z.even q) eqn:Ev.
+  - right. split; [lia|exact Ev].
+  - right. split; [lia|]. rewrite Z.even_add, Ev. reflexivity.
+Qed.
+
+Lemma is_rne_unique n d m1 m2 : 0 < d -> is_rne n d m1 -> is_rne n d m2 -> m1 = m2.
+Proof.
+  intros Hd H1 H2. unfold is_rne in *.
+  destruct (Z.lt_trichotomy m1 m2) as [L|[E|L]]; [|exact E|]; exfalso.
+  - assert (m2 = m1 + 1) by nia. subst m2.
+    destruct H1 as [H1|[H1 E1]], H2 as [H2|[H2 E2]]; try nia.
+    rewrite Z.even_add, E1 in E2. discriminate.
+  - assert (m1 = m2 + 1) by nia. subst m1.
+    destruct H1 as [H1|[H1 E1]], H2 as [H2|[H2 E2]]; try nia.
+    rewrite Z.even_add, E2 in E1. discriminate.
+Qed.
+
+Lemma rne_div_unique n d m : 0 < d -> is_rne n d m -> rne_div n d = m.
+Proof. intros Hd H. eapply is_rne_unique; eauto using rne_div_spec. Qed.
+
+Lemma rne_div_exact m d : 0 < d -> rne_div (m * d) d = m.
+Proof. intros. apply rne_div_unique; [lia|]. left. replace (m * d - m * d) with 0 by lia. simpl. lia. Qed.
+
+Lemma rne_div_mono n1 n2 d : 0 < d -> n1 <= n2 -> rne_div n1 d <= rne_div n2 d.
+Proof.
+  intros Hd Hn. pose proof (rne_div_spec n1 d Hd) as H1. pose proof (rne_div_spec n2 d Hd) as H2.
+  set (m1 := rne_div n1 d) in *. set (m2 := rne_div n2 d) in *. clearbody m1 m2. unfold is_rne in *.
+  destruct (Z_le_gt_dec m1 m2) as [|G]; [assumption|exfalso].
+  (* m2 < m1 : n1 >= m1 d - d/2 >= m2 d + d/2 >= n2 >= n1: all equal *)
+  assert (m1 = m2 + 1) by nia. subst m1.
+  destruct H1 as [H1|[H1 E1]], H2 as [H2|[H2 E2]]; try nia.
+  rewrite Z.even_add, E2 in E1. discriminate.
+Qed.
+
+Lemma rne_div_scale n d c : 0 < d -> 0 < c -> rne_div (n * c) (d * c) = rne_div n d.
+Proof.
+  intros Hd Hc. apply rne_div_unique; [nia|].
+  destruct (rne_div_spec n d Hd) as [H|[H E]]; [left|right; split; [|exact E]].
+  - replace (rne_div n d * (d * c) - n * c) with ((rne_div n d * d - n) * c) by ring.
+    rewrite Z.abs_mul, (Z.abs_eq c) by lia. nia.
+  - replace (rne_div n d * (d * c) - n * c) with ((rne_div n d * d - n) * c) by ring.
+    rewrite Z.abs_mul, (Z.abs_eq c) by lia. nia.
+Qed.
+
+(** same quotient for equal fractions *)
+Lemma rne_div_frac_eq n1 d1 n2 d2 : 0 < d1 -> 0 < d2 -> n1 * d2 = n2 * d1 -> rne_div n1 d1 = rne_div n2 d2.
+Proof.
+  intros H1 H2 E. rewrite <- (rne_div_scale n1 d1 d2), <- (rne_div_scale n2 d2 d1) by lia.
+  rewrite E. f_equal. ring.
+Qed.
+
+Lemma rne_div_bounds n d a b : 0 < d -> a * d <= n <= b * d -> a <= rne_div n d <= b.
+Proof.
+  intros Hd [Ha Hb]. split.
+  - rewrite <- (rne_div_exact a d Hd). apply rne_div_mono; assumption.
+  - rewrite <- (rne_div_exact b d Hd). apply rne_div_mono; assumption.
+Qed.
+
+(** ** round_pos *)
+
+Lemma two52_eq : two52 = 2 ^ 52. Proof. reflexivity. Qed.
+Lemma two53_eq : two53 = 2 * two52. Proof. reflexivity. Qed.
+
+Lemma binade_ge num den : -1022 <= binade num den.
+Proof. unfold binade. lia. Qed.
+
+(** introduction rule: any (binade, nearest-even mantissa) pair is the result *)
+Lemma round_pos_eq num den e M :
+  0 < num -> 0 < den -> is_ilog2 num den e ->
+  let E := Z.max e (-1022) in
+  is_rne (num * P2 (52 - E)) (den * P2 (E - 52)) M ->
+  round_pos num den = (E + 1022) * two52 + M.
+Proof.
+  intros Hn Hd He E HM. unfold round_pos, binade, scale2. cbn [fst snd].
+  rewrite (ilog2_unique num den _ e Hn Hd (ilog2_spec num den Hn Hd) He). fold E.
+  replace (- (52 - E)) with (E - 52) by lia.
+  rewrite (rne_div_unique _ _ M); [reflexivity| |exact HM].
+  pose proof (P2_pos (E - 52)). nia.
+Qed.
+
+(** the scaled fraction lies in [2^52, 2^53) in the normal range, below 2^52 in the subnormal range *)
+Lemma scaled_bounds num den e :
+  0 < num -> 0 < den -> is_ilog2 num den e ->
+  let E := Z.max e (-1022) in
+  let n := num * P2 (52 - E) in let d := den * P2 (E - 52) in
+  0 < d /\ 0 < n /\ n < two53 * d /\ (-1022 <= e -> two52 * d <= n) /\ (e < -1022 -> n < two52 * d).
+Proof.
+  intros Hn Hd [He1 He2] E n d.
+  pose proof (P2_pos (52 - E)) as Hp. pose proof (P2_pos (E - 52)) as Hq.
+  pose proof (P2_pos e) as Hpe. pose proof (P2_pos (- e)) as Hqe.
+  assert (0 < d) by (subst d; nia). assert (0 < n) by (subst n; nia).
+  split; [assumption|]. split; [assumption|].
+  destruct (Z_le_gt_dec (-1022) e) as [Hn'|Hs].
+  - assert (E = e) by (subst E; lia). clearbody E. subst E.
+    pose proof (P2_add e (-52)) as HA. change (P2 (- -52)) with two52 in HA.
+    change (P2 (-52)) with 1 in HA. replace (e + -52) with (e - 52) in HA by lia.
+    replace (- (e - 52)) with (52 - e) in HA by lia.
+    (* P2(e-52) * P2(-e) * two52 = P2(52-e) * P2 e * 1 *)
+    subst n d.
+    set (a := P2 (e - 52)) in *. set (b := P2 (52 - e)) in *. set (p := P2 e) in *. set (q := P2 (- e)) in *.
+    assert (X1 : two52 * (den * a) * q = den * p * b) by nia.
+    split; [|split; [|lia]].
+    + (* num b < two53 den a  <=  num b q < 2 den p b = 2 two52 den a q *)
+      assert (num * b * q < 2 * (den * p * b)) by nia.
+      rewrite <- X1 in H1. rewrite two53_eq. nia.
+    + intros _. assert (den * p * b <= num * b * q) by nia. rewrite <- X1 in H1. nia.
+  - assert (E = -1022) by (subst E; lia). clearbody E. subst E.
+    subst n d. change (P2 (52 - -1022)) with (2 ^ 1074) in *. change (P2 (-1022 - 52)) with 1 in *.
+    rewrite (P2_nonpos e) in * by lia. rewrite (P2_nonneg (- e)) in * by lia.
+    assert (2 ^ 1023 <= 2 ^ (- e)) by (apply Z.pow_le_mono_r; lia).
+    assert (HK : num * 2 ^ 1023 < 2 * den) by nia.
+    change (2 ^ 1074) with (2 ^ 1023 * 2251799813685248).
+    remember (2 ^ 1023) as K eqn:EK. clear EK. unfold two52, two53.
+    split; [|split; [lia|intros _]]; nia.
+Qed.
+
+Lemma round_pos_mant num den :
+  0 < num -> 0 < den ->
+  let e := ilog2 num den in let E := binade num den in
+  let M := rne_div (num * P2 (52 - E)) (den * P2 (E - 52)) in
+  round_pos num den = (E + 1022) * two52 + M /\
+  0 <= M <= two53 /\ (-1022 <= e -> two52 <= M) /\ (e < -1022 -> M <= two52).
+Proof.
+  intros Hn Hd e E M.
+  pose proof (ilog2_spec num den Hn Hd) as He. fold e in He.
+  destruct (scaled_bounds num den e Hn Hd He) as (Hd' & Hn' & Hu & Hnorm & Hsub).
+  fold (binade num den) in *. unfold binade in E. fold e in E. fold E in Hd', Hn', Hu, Hnorm, Hsub.
+  split.
+  - subst M E e. unfold round_pos, scale2, binade. cbn [fst snd].
+    replace (- (52 - Z.max (ilog2 num den) (-1022))) with (Z.max (ilog2 num den) (-1022) - 52) by lia.
+    reflexivity.
+  - split; [|split].
+    + subst M. apply rne_div_bounds; [assumption|lia].
+    + intros H. subst M. apply rne_div_bounds with (b := two53); [assumption|]. split; [auto|lia].
+    + intros H. subst M. apply rne_div_bounds with (a := 0); [assumption|]. split; [lia|]. specialize (Hsub H). lia.
+Qed.
+
+(** value of a pattern assembled from binade and mantissa (carry included) *)
+Lemma ival_pattern E M :
+  -1022 <= E -> 0 <= M <= two53 -> (-1022 < E -> two52 <= M) ->
+  ival ((E + 1022) * two52 + M) = M * 2 ^ (E + 1022).
+Proof.
+  intros HE HM Hnorm. unfold ival.
+  assert (T : 0 < two52) by (unfold two52; lia).
+  destruct (Z_lt_le_dec M two52) as [Hlt|Hge].
+  - assert (E = -1022) by lia. subst E. change ((-1022 + 1022) * two52) with 0. rewrite Z.add_0_l.
+    rewrite Z.div_small, Z.mod_small by lia. change (-1022 + 1022) with 0. cbn [Z.eqb]. lia.
+  - destruct (Z_lt_le_dec M two53) as [Hlt2|Hge2].
+    + replace ((E + 1022) * two52 + M) with ((M - two52) + (E + 1023) * two52) by lia.
+      rewrite Z.div_add, Z_mod_plus_full by lia.
+      rewrite Z.div_small, Z.mod_small by (rewrite two53_eq in *; lia).
+      destruct (Z.eqb_spec (0 + (E + 1023)) 0); [lia|].
+      replace (0 + (E + 1023) - 1) with (E + 1022) by lia. f_equal. lia.
+    + assert (M = two53) by lia. subst M. rewrite two53_eq.
+      replace ((E + 1022) * two52 + 2 * two52) with (0 + (E + 1024) * two52) by lia.
+      rewrite Z.div_add, Z_mod_plus_full by lia. rewrite Z.div_small, Z.mod_small by lia.
+      destruct (Z.eqb_spec (0 + (E + 1024)) 0); [lia|].
+      replace (0 + (E + 1024) - 1) with ((E + 1022) + 1) by lia.
+      rewrite Z.pow_add_r by lia. change (2 ^ 1) with 2. lia.
+Qed.
+
+(** the error of rounding is at most half a unit in the last place of the binade of the input
+    (values scaled by 2^1074 * den to stay in Z) *)
+Lemma round_pos_error num den :
+  0 < num -> 0 < den ->
+  let E := binade num den in
+  let b := round_pos num den in
+  2 * Z.abs (ival b * den - num * 2 ^ 1074) <= 2 ^ (E + 1022) * den /\
+  (2 * Z.abs (ival b * den - num * 2 ^ 1074) = 2 ^ (E + 1022) * den -> Z.even b = true).
+Proof.
+  intros Hn Hd E b.
+  destruct (round_pos_mant num den Hn Hd) as (Hb & HM & Hnorm & Hsub).
+  fold E in Hb, HM, Hnorm, Hsub. fold b in Hb.
+  set (M := rne_div (num * P2 (52 - E)) (den * P2 (E - 52))) in *.
+  assert (HE : -1022 <= E) by apply binade_ge.
+  assert (Hnorm' : -1022 < E -> two52 <= M).
+  { intros H. apply Hnorm. unfold E, binade in H. lia. }
+  rewrite Hb, (ival_pattern E M HE HM Hnorm').
+  pose proof (P2_pos (E - 52)) as Hq. pose proof (P2_pos (52 - E)) as Hp.
+  assert (Hd' : 0 < den * P2 (E - 52)) by nia.
+  pose proof (rne_div_spec (num * P2 (52 - E)) (den * P2 (E - 52)) Hd') as HR. fold M in HR.
+  assert (Ev : Z.even ((E + 1022) * two52 + M) = Z.even M).
+  { rewrite Z.even_add, Z.even_mul. change (Z.even two52) with true. rewrite orb_true_r.
+    destruct (Z.even M); reflexivity. }
+  rewrite Ev.
+  assert (HW : 0 < 2 ^ (E + 1022)) by (apply Z.pow_pos_nonneg; lia).
+  unfold is_rne in HR.
+  destruct (Z_le_gt_dec E 52) as [Hle|Hgt].
+  - rewrite (P2_nonpos (E - 52)), (P2_nonneg (52 - E)) in * by lia.
+    assert (X : 2 ^ (52 - E) * 2 ^ (E + 1022) = 2 ^ 1074) by (rewrite <- Z.pow_add_r by lia; f_equal; lia).
+    replace (M * 2 ^ (E + 1022) * den - num * 2 ^ 1074)
+      with ((M * (den * 1) - num * 2 ^ (52 - E)) * 2 ^ (E + 1022)) by (rewrite <- X; ring).
+    rewrite Z.abs_mul, (Z.abs_eq (2 ^ (E + 1022))) by lia.
+    split; [nia|]. intros Heq. destruct HR as [HR|[_ HR]]; [nia|exact HR].
+  - rewrite (P2_nonneg (E - 52)), (P2_nonpos (52 - E)) in * by lia.
+    assert (X : 2 ^ (E - 52) * 2 ^ 1074 = 2 ^ (E + 1022)) by (rewrite <- Z.pow_add_r by lia; f_equal; lia).
+    rewrite <- X.
+    replace (M * (2 ^ (E - 52) * 2 ^ 1074) * den - num * 2 ^ 1074)
+      with ((M * (den * 2 ^ (E - 52)) - num * 1) * 2 ^ 1074) by ring.
+    assert (0 < 2 ^ 1074) by (apply Z.pow_pos_nonneg; lia).
+    rewrite Z.abs_mul, (Z.abs_eq (2 ^ 1074)) by lia.
+    split; [nia|]. intros Heq. destruct HR as [HR|[_ HR]]; [nia|exact HR].
+Qed.
+
+(** order of magnitude is monotone *)
+Lemma ilog2_mono n1 d1 n2 d2 :
+  0 < n1 -> 0 < d1 -> 0 < n2 -> 0 < d2 -> n1 * d2 <= n2 * d1 -> ilog2 n1 d1 <= ilog2 n2 d2.
+Proof.
+  intros Hn1 Hd1 Hn2 Hd2 Hle.
+  destruct (ilog2_spec n1 d1 Hn1 Hd1) as [A1 _]. destruct (ilog2_spec n2 d2 Hn2 Hd2) as [_ B2].
+  set (e1 := ilog2 n1 d1) in *. set (e2 := ilog2 n2 d2) in *.
+  destruct (Z_le_gt_dec e1 e2) as [|G]; [assumption|exfalso].
+  pose proof (P2_mono_strict e2 e1 ltac:(lia)) as Hm.
+  pose proof (P2_pos e1). pose proof (P2_pos (-e1)). pose proof (P2_pos e2). pose proof (P2_pos (-e2)).
+  set (a := P2 e1) in *. set (a' := P2 (-e1)) in *. set (b := P2 e2) in *. set (b' := P2 (-e2)) in *.
+  (* d1 a <= n1 a' ; n2 b' < 2 d2 b ; 2 b a' <= a b' *)
+  (* n2 b' a' d1 < 2 d2 b a' d1 <= d2 a b' d1 <= d2 b' n1 a' => n2 d1 < n1 d2 *)
+  assert (n2 * b' * a' * d1 < 2 * d2 * b * a' * d1) by nia.
+  assert (2 * d2 * b * a' * d1 <= d2 * (a * b') * d1) by nia.
+  assert (d2 * (a * b') * d1 <= d2 * b' * (n1 * a')) by nia.
+  assert (n2 * d1 * (b' * a') < n1 * d2 * (b' * a')) by nia.
+  nia.
+Qed.
+
+Lemma round_pos_mono n1 d1 n2 d2 :
+  0 < n1 -> 0 < d1 -> 0 < n2 -> 0 < d2 -> n1 * d2 <= n2 * d1 -> round_pos n1 d1 <= round_pos n2 d2.
+Proof.
+  intros Hn1 Hd1 Hn2 Hd2 Hle.
+  destruct (round_pos_mant n1 d1 Hn1 Hd1) as (Hb1 & HM1 & Hnorm1 & Hsub1).
+  destruct (round_pos_mant n2 d2 Hn2 Hd2) as (Hb2 & HM2 & Hnorm2 & Hsub2).
+  pose proof (ilog2_mono n1 d1 n2 d2 Hn1 Hd1 Hn2 Hd2 Hle) as He.
+  rewrite Hb1, Hb2. unfold binade in *.
+  set (e1 := ilog2 n1 d1) in *. set (e2 := ilog2 n2 d2) in *.
+  set (E1 := Z.max e1 (-1022)) in *. set (E2 := Z.max e2 (-1022)) in *.
+  assert (T : 0 < two52) by (unfold two52; lia).
+  destruct (Z.eq_dec E1 E2) as [EE|NE].
+  - rewrite <- EE in *. clearbody E1.
+    apply Z.add_le_mono_l.
+    pose proof (P2_pos (52 - E1)). pose proof (P2_pos (E1 - 52)).
+    rewrite <- (rne_div_scale (n1 * P2 (52 - E1)) (d1 * P2 (E1 - 52)) d2) by nia.
+    rewrite <- (rne_div_scale (n2 * P2 (52 - E1)) (d2 * P2 (E1 - 52)) d1) by nia.
+    replace (d2 * P2 (E1 - 52) * d1) with (d1 * P2 (E1 - 52) * d2) by ring.
+    apply rne_div_mono; nia.
+  - assert (E1 + 1 <= E2) by lia. assert (-1022 <= e2) by lia.
+    specialize (Hnorm2 ltac:(lia)). rewrite two53_eq in *. nia.
+Qed.
+
+(** ** round_ne: sign, overflow flag *)
+
+Lemma round_pos_nonneg num den : 0 < num -> 0 < den -> 0 <= round_pos num den.
+Proof.
+  intros Hn Hd. destruct (round_pos_mant num den Hn Hd) as (Hb & HM & _).
+  rewrite Hb. pose proof (binade_ge num den). unfold two52. nia.
+Qed.
+
+(** the result is a well-formed pattern: sign as requested, magnitude a finite float64 or +Inf,
+    +Inf exactly when the overflow flag is set *)
+Theorem round_ne_representable neg num den :
+  0 <= num -> 0 < den ->
+  let r := round_ne neg num den in
+  f_neg (fst r) = neg /\ 0 <= f_abs (fst r) <= inf_bits /\ (snd r = true <-> f_abs (fst r) = inf_bits)
+  /\ 0 <= fst r < 2 ^ 64.
+Proof.
+  intros Hn Hd. unfold round_ne.
+  assert (S : sign_bit = 2 ^ 63) by reflexivity.
+  assert (I : inf_bits < sign_bit) by (vm_compute; reflexivity).
+  assert (I0 : 0 < inf_bits) by (vm_compute; reflexivity).
+  assert (S2 : 2 ^ 64 = 2 * sign_bit) by reflexivity.
+  destruct (Z.leb_spec num 0) as [Hz|Hp]; cbn [fst snd].
+  - unfold f_neg, f_abs. destruct neg.
+    + rewrite Z.mod_same by lia. rewrite Z.leb_refl. repeat split; try lia; try discriminate.
+    + rewrite Z.mod_0_l by lia. destruct (Z.leb_spec sign_bit 0); [lia|]. repeat split; try lia; try discriminate.
+  - pose proof (round_pos_nonneg num den Hp Hd) as Hb.
+    set (b := round_pos num den) in *.
+    destruct (Z.leb_spec inf_bits b) as [Ho|Hf]; cbn [fst snd]; unfold f_neg, f_abs; destruct neg.
+    + replace (sign_bit + inf_bits) with (inf_bits + 1 * sign_bit) by lia.
+      rewrite Z_mod_plus_full, Z.mod_small by lia.
+      destruct (Z.leb_spec sign_bit (inf_bits + 1 * sign_bit)); [|lia]. repeat split; lia.
+    + rewrite Z.add_0_l, Z.mod_small by lia. destruct (Z.leb_spec sign_bit inf_bits); [lia|]. repeat split; lia.
+    + replace (sign_bit + b) with (b + 1 * sign_bit) by lia.
+      rewrite Z_mod_plus_full, Z.mod_small by lia.
+      destruct (Z.leb_spec sign_bit (b + 1 * sign_bit)); [|lia]. repeat split; try lia; try discriminate.
+    + rewrite Z.add_0_l, Z.mod_small by lia. destruct (Z.leb_spec sign_bit b); [lia|]. repeat split; try lia; try discriminate.
+Qed.
+
+(** without overflow the magnitude of the result is within half an ulp of num/den,
+    and on an exact tie the pattern (hence the mantissa) is even *)
+Theorem round_ne_error neg num den :
+  0 < num -> 0 < den -> snd (round_ne neg num den) = false ->
+  let b := f_abs (fst (round_ne neg num den)) in
+  let E := binade num den in
+  2 * Z.abs (ival b * den - num * 2 ^ 1074) <= 2 ^ (E + 1022) * den /\
+  (2 * Z.abs (ival b * den - num * 2 ^ 1074) = 2 ^ (E + 1022) * den -> Z.even b = true).
+Proof.
+  intros Hn Hd. unfold round_ne.
+  assert (I : inf_bits < sign_bit) by (vm_compute; reflexivity).
+  destruct (Z.leb_spec num 0) as [Hz|Hp]; [lia|].
+  pose proof (round_pos_nonneg num den Hp Hd) as Hb.
+  destruct (Z.leb_spec inf_bits (round_pos num den)) as [Ho|Hf]; cbn [fst snd]; [discriminate|].
+  intros _.
+  assert (X : f_abs ((if neg then sign_bit else 0) + round_pos num den) = round_pos num den).
+  { unfold f_abs. destruct neg.
+    - replace (sign_bit + round_pos num den) with (round_pos num den + 1 * sign_bit) by lia.
+      rewrite Z_mod_plus_full, Z.mod_small by lia. reflexivity.
+    - rewrite Z.add_0_l, Z.mod_small by lia. reflexivity. }
+  rewrite X. apply round_pos_error; assumption.
+Qed.
+
+(** rounding is monotone (non-negative side; the negative side is its mirror image) *)
+Theorem round_ne_mono n1 d1 n2 d2 :
+  0 <= n1 -> 0 < d1 -> 0 <= n2 -> 0 < d2 -> n1 * d2 <= n2 * d1 ->
+  fst (round_ne false n1 d1) <= fst (round_ne false n2 d2).
+Proof.
+  intros Hn1 Hd1 Hn2 Hd2 Hle. unfold round_ne.
+  assert (I0 : 0 < inf_bits) by (vm_compute; reflexivity).
+  destruct (Z.leb_spec n1 0) as [Hz1|Hp1]; destruct (Z.leb_spec n2 0) as [Hz2|Hp2]; cbn [fst snd].
+  - lia.
+  - pose proof (round_pos_nonneg n2 d2 Hp2 Hd2). destruct (Z.leb_spec inf_bits (round_pos n2 d2)); cbn [fst]; lia.
+  - nia.
+  - pose proof (round_pos_mono n1 d1 n2 d2 Hp1 Hd1 Hp2 Hd2 Hle).
+    destruct (Z.leb_spec inf_bits (round_pos n1 d1)); destruct (Z.leb_spec inf_bits (round_pos n2 d2)); cbn [fst]; lia.
+Qed.
+
+(** exactly representable inputs are fixed points: a finite pattern rounds to itself *)
+Lemma ival_bounds b : 0 <= b -> 0 <= ival b.
+Proof.
+  intros Hb. unfold ival. assert (T : 0 < two52) by (unfold two52; lia).
+  pose proof (Z.mod_pos_bound b two52 T). pose proof (Z.div_pos b two52 Hb T).
+  destruct (Z.eqb_spec (b / two52) 0); [lia|].
+  assert (0 < 2 ^ (b / two52 - 1)) by (apply Z.pow_pos_nonneg; lia). nia.
+Qed.
+
+Theorem round_pos_ival b : 0 < b -> round_pos (ival b) (2 ^ 1074) = b.
+Proof.
+  intros Hb. assert (T : 0 < two52) by (unfold two52; lia).
+  pose proof (Z.div_mod b two52 ltac:(lia)) as Eb. pose proof (Z.mod_pos_bound b two52 T) as Bm.
+  pose proof (Z.div_pos b two52 ltac:(lia) T) as Bq.
+  assert (D : 0 < 2 ^ 1074) by (apply Z.pow_pos_nonneg; lia).
+  unfold ival. set (ex := b / two52) in *. set (mt := b mod two52) in *.
+  destruct (Z.eqb_spec ex 0) as [Z0|NZ].
+  - (* subnormal *)
+    assert (Hmt : 0 < mt) by lia.
+    rewrite (round_pos_eq mt (2 ^ 1074) (Z.log2 mt - 1074) mt Hmt D).
+    + assert (Z.log2 mt < 52) by (apply Z.log2_lt_pow2; [lia|]; rewrite <- two52_eq; lia).
+      rewrite Z.max_r by lia. lia.
+    + unfold is_ilog2. pose proof (Z.log2_spec mt Hmt) as [L1 L2].
+      assert (Z.log2 mt < 52) by (apply Z.log2_lt_pow2; [lia|]; rewrite <- two52_eq; lia).
+      pose proof (Z.log2_nonneg mt).
+      rewrite (P2_nonpos (Z.log2 mt - 1074)), (P2_nonneg (- (Z.log2 mt - 1074))) by lia.
+      replace (- (Z.log2 mt - 1074)) with (1074 - Z.log2 mt) by lia.
+      assert (X : 2 ^ Z.log2 mt * 2 ^ (1074 - Z.log2 mt) = 2 ^ 1074) by (rewrite <- Z.pow_add_r by lia; f_equal; lia).
+      replace (Z.succ (Z.log2 mt)) with (Z.log2 mt + 1) in L2 by lia. rewrite Z.pow_add_r in L2 by lia.
+      change (2 ^ 1) with 2 in L2.
+      assert (0 < 2 ^ (1074 - Z.log2 mt)) by (apply Z.pow_pos_nonneg; lia).
+      rewrite <- X. nia.
+    + assert (Z.log2 mt < 52) by (apply Z.log2_lt_pow2; [lia|]; rewrite <- two52_eq; lia).
+      rewrite Z.max_r by lia. change (P2 (52 - -1022)) with (2 ^ 1074). change (P2 (-1022 - 52)) with 1.
+      left. replace (mt * (2 ^ 1074 * 1) - mt * 2 ^ 1074) with 0 by ring. simpl. lia.
+  - (* normal (or beyond) *)
+    assert (Hex : 1 <= ex) by lia.
+    assert (P : 0 < 2 ^ (ex - 1)) by (apply Z.pow_pos_nonneg; lia).
+    assert (Hn : 0 < (two52 + mt) * 2 ^ (ex - 1)) by nia.
+    set (e := ex - 1023).
+    rewrite (round_pos_eq _ (2 ^ 1074) e (two52 + mt) Hn D).
+    + subst e. rewrite Z.max_l by lia. lia.
+    + unfold is_ilog2. subst e.
+      (* 2^1074 * P2 e <= (two52+mt) * 2^(ex-1) * P2 (-e) < 2 * ... ; 2^(ex-1) * P2(-e) * 2^52 = 2^1074 * P2 e *)
+      assert (X : 2 ^ (ex - 1) * P2 (- (ex - 1023)) * two52 = 2 ^ 1074 * P2 (ex - 1023)).
+      { destruct (Z_le_gt_dec 1023 ex).
+        - rewrite P2_nonpos, P2_nonneg by lia. rewrite two52_eq, Z.mul_1_r, <- !Z.pow_add_r by lia. f_equal. lia.
+        - rewrite P2_nonneg, P2_nonpos by lia. rewrite two52_eq, <- !Z.pow_add_r by lia. rewrite Z.mul_1_r. f_equal. lia. }
+      pose proof (P2_pos (ex - 1023)). pose proof (P2_pos (- (ex - 1023))).
+      set (u := 2 ^ (ex - 1) * P2 (- (ex - 1023))) in *.
+      replace ((two52 + mt) * 2 ^ (ex - 1) * P2 (- (ex - 1023))) with ((two52 + mt) * u) by (subst u; ring).
+      rewrite <- X. assert (0 < u) by (subst u; nia). nia.
+    + subst e. rewrite Z.max_l by lia. left.
+      replace (52 - (ex - 1023)) with (1075 - ex) by lia. replace (ex - 1023 - 52) with (ex - 1075) by lia.
+      assert (X : 2 ^ (ex - 1) * P2 (1075 - ex) = 2 ^ 1074 * P2 (ex - 1075)).
+      { destruct (Z_le_gt_dec 1075 ex).
+        - rewrite P2_nonpos, P2_nonneg by lia. rewrite Z.mul_1_r, <- !Z.pow_add_r by lia. f_equal. lia.
+        - rewrite P2_nonneg, P2_nonpos by lia. rewrite Z.mul_1_r, <- !Z.pow_add_r by lia. f_equal. lia. }
+      replace ((two52 + mt) * (2 ^ 1074 * P2 (ex - 1075)) - (two52 + mt) * 2 ^ (ex - 1) * P2 (1075 - ex))
+        with ((two52 + mt) * (2 ^ 1074 * P2 (ex - 1075) - 2 ^ (ex - 1) * P2 (1075 - ex))) by ring.
+      rewrite X. replace (2 ^ 1074 * P2 (ex - 1075) - 2 ^ 1074 * P2 (ex - 1075)) with 0 by ring.
+      rewrite Z.mul_0_r. change (Z.abs 0) with 0. pose proof (P2_pos (ex - 1075)).
+      remember (2 ^ 1074) as W eqn:EW. clear EW. nia.
+Qed.
+
+(** [ival] is strictly monotone on non-negative patterns: patterns order like values *)
+Theorem ival_mono a b : 0 <= a -> a < b -> ival a < ival b.
+Proof.
+  intros Ha Hab.
+  destruct (Z.eq_dec a 0) as [->|Na].
+  - change (ival 0) with 0.
+    pose proof (round_pos_ival b ltac:(lia)) as Rb.
+    pose proof (ival_bounds b ltac:(lia)).
+    destruct (Z.eq_dec (ival b) 0) as [Z0|]; [|lia].
+    exfalso. rewrite Z0 in Rb. vm_compute in Rb. lia.
+  - destruct (Z_lt_le_dec (ival a) (ival b)) as [|Hge]; [assumption|exfalso].
+    pose proof (ival_bounds a Ha). pose proof (ival_bounds b ltac:(lia)).
+    pose proof (round_pos_ival a ltac:(lia)) as Ra. pose proof (round_pos_ival b ltac:(lia)) as Rb.
+    assert (D : 0 < 2 ^ 1074) by (apply Z.pow_pos_nonneg; lia).
+    destruct (Z.eq_dec (ival b) 0) as [Z0|NZ].
+    + rewrite Z0 in Rb. vm_compute in Rb. lia.
+    + pose proof (round_pos_mono (ival b) (2 ^ 1074) (ival a) (2 ^ 1074) ltac:(lia) D ltac:(lia) D ltac:(nia)). lia.
+Qed.
+
+(* each main theorem is closed under the global context *)
+Print Assumptions round_ne_representable.
+Print Assumptions round_ne_error.
+Print Assumptions round_ne_mono.
+Print Assumptions round_pos_ival.
+Print Assumptions ival_mono.
